@@ -1,6 +1,7 @@
 package checks
 
 import (
+	"encoding/json"
 	"fmt"
 	"strings"
 	"testing"
@@ -26,6 +27,53 @@ func init() {
 	core.RegisterJudge("C13", "compile", judgeC13Compile)
 	core.RegisterJudge("C13", "syntax", judgeC13Syntax)
 	core.RegisterJudge("C13", "runtime", judgeC13Runtime)
+	core.RegisterJudge("C13", "source-reuse", judgeC13SourceReuse)
+}
+
+// c13Reused is one long-lived Source value per process: programs are decoded into existing values by callers
+// that keep a Program around (json.Unmarshal reuses a non-nil *file.Source).
+var c13Reused = file.NewSource("first\nsecond line\nthird")
+
+// source-reuse: a *file.Source that already served another text (and rendered snippets of it) is loaded with a
+// new text through its UnmarshalJSON; every line, and an error bound at a drawn location, must be rendered as a
+// fresh Source of the new text renders it.
+func judgeC13SourceReuse(c *core.Case, cfg *core.Config) core.Verdict {
+	v := core.Verdict{Key: c.Source}
+	fresh := file.NewSource(c.Source)
+	for i := 1; i <= 4; i++ {
+		c13Reused.Snippet(i) // the previous text has been rendered
+	}
+	data, err := json.Marshal(fresh)
+	if err == nil {
+		err = json.Unmarshal(data, c13Reused)
+	}
+	if err != nil {
+		v.Violation = "a Source does not survive its own JSON encoding: " + err.Error()
+		return v
+	}
+	if c13Reused.Content() != c.Source {
+		v.Violation = fmt.Sprintf("decoded content %q, want %q", c13Reused.Content(), c.Source)
+		return v
+	}
+	lines := strings.Count(c.Source, "\n") + 1
+	for i := 0; i <= lines+1; i++ {
+		a, aok := c13Reused.Snippet(i)
+		b, bok := fresh.Snippet(i)
+		if a != b || aok != bok {
+			v.Violation = fmt.Sprintf("line %d of a re-loaded Source is rendered as %q (%v), of a fresh Source of the same text as %q (%v)", i, a, aok, b, bok)
+			return v
+		}
+	}
+	loc := file.Location{Line: c.Int("line")%lines + 1, Column: c.Int("col") % 5}
+	ea := (&file.Error{Location: loc, Message: "m"}).Bind(c13Reused).Error()
+	eb := (&file.Error{Location: loc, Message: "m"}).Bind(fresh).Error()
+	if ea != eb {
+		v.Violation = fmt.Sprintf("an error at %d:%d bound to a re-loaded Source reads %q, to a fresh one %q", loc.Line, loc.Column, ea, eb)
+		return v
+	}
+	v.NonTriv = lines > 1
+	v.Classes = append(v.Classes, fmt.Sprintf("lines:%d", bucket(lines)))
+	return v
 }
 
 // c13Located checks the clauses that hold for every located error.
@@ -175,6 +223,10 @@ func judgeC13Runtime(c *core.Case, cfg *core.Config) core.Verdict {
 		copts := []expr.Option{expr.Env(core.Env{}), expr.Optimize(opt)}
 		if c.Bool("missing") {
 			copts = []expr.Option{expr.Optimize(opt)} // no declared environment: the unknown name is found at run time
+		} else if c.Bool("ops") {
+			// `/` on two ints is replaced by a call of Div, which fails exactly where the built-in division does
+			// (division by zero): the error of the call is still the error of that operator
+			copts = append(copts, expr.Operator("/", "Div"))
 		}
 		p, err := compile(c.Source, copts...)
 		if err != nil {
@@ -447,6 +499,7 @@ func genC13Runtime(t *rapid.T, cfg *core.Config) *core.Case {
 	}
 	c := pcase("C13", "runtime")
 	c.P["missing"] = missing
+	c.P["ops"] = rapid.IntRange(0, 3).Draw(t, "ops") == 0
 	c.X, c.Env = x, spec
 	c.Source = c13Printer(t).Print(x)
 	n := ref.Fail.Node
@@ -469,5 +522,18 @@ func TestC13(t *testing.T) {
 	if !core.RunRapid(t, rec, "syntax", cfg.N(15000, 400000), func(rt *rapid.T) *core.Case { return genC13Syntax(rt, cfg) }) {
 		return
 	}
-	core.RunRapid(t, rec, "runtime", cfg.N(60000, 1200000), func(rt *rapid.T) *core.Case { return genC13Runtime(rt, cfg) })
+	if !core.RunRapid(t, rec, "runtime", cfg.N(60000, 1200000), func(rt *rapid.T) *core.Case { return genC13Runtime(rt, cfg) }) {
+		return
+	}
+	core.RunRapid(t, rec, "source-reuse", cfg.N(3000, 60000), func(rt *rapid.T) *core.Case {
+		c := pcase("C13", "source-reuse")
+		n := rapid.IntRange(1, 6).Draw(rt, "nlines")
+		var ls []string
+		for i := 0; i < n; i++ {
+			ls = append(ls, rapid.SampledFrom([]string{"", "a", "  x + 1", "'日本' + S", "\tXs[é]", "héllo wörld", "not (B and T) ? \"y\" : \"n\"", "\r", "😀"}).Draw(rt, "line"))
+		}
+		c.Source = strings.Join(ls, "\n")
+		c.P["line"], c.P["col"] = rapid.IntRange(0, 9).Draw(rt, "l"), rapid.IntRange(0, 9).Draw(rt, "c")
+		return c
+	})
 }
